@@ -34,10 +34,10 @@ def plan(tier, seed):
 
 def thresholds(tier):
   t = {"design_backend_pairs": 100, "texts_compared": 300, "module_tables_checked": 100, "standalone_bodies_compared": 200,
-       "parameterisations": 300, "hashed_module_names": 20, "full_names_checked": 150, "instance_statements_checked": 120, "multi_unit_texts_compared": 100, "duplicate_module_probes": 6, "duplicate_module_probe_controls_clean": 3, "reserved_word_probes": 1500, "reserved_word_probe_controls_translated": 100}
+       "parameterisations": 300, "hashed_module_names": 20, "full_names_checked": 150, "instance_statements_checked": 120, "multi_unit_texts_compared": 100, "duplicate_module_probes": 6, "retranslations_compared": 8, "duplicate_module_probe_controls_clean": 3, "reserved_word_probes": 1500, "reserved_word_probe_controls_translated": 100}
   if tier == "thorough":
     t = {k: v * 8 for k, v in t.items()}
-    t["multi_unit_texts_compared"] = 100; t["duplicate_module_probes"] = 6; t["duplicate_module_probe_controls_clean"] = 3; t["reserved_word_probes"] = 1500; t["reserved_word_probe_controls_translated"] = 100       # same size in both tiers
+    t["multi_unit_texts_compared"] = 100; t["duplicate_module_probes"] = 6; t["retranslations_compared"] = 8; t["duplicate_module_probe_controls_clean"] = 3; t["reserved_word_probes"] = 1500; t["reserved_word_probe_controls_translated"] = 100       # same size in both tiers
   return t
 
 
@@ -553,6 +553,71 @@ def run_dupmodule_probes(sh):
     sys.modules.pop("c13dup_mod", None)
 
 
+RETR_SRC = """
+from pymtl3 import *
+class RLeaf(Component):
+  def construct(s, k=1):
+    s.in_ = InPort(8); s.out = OutPort(8)
+    @update
+    def up():
+      s.out @= s.in_ + k
+class RMid(Component):
+  def construct(s):
+    s.in_ = InPort(8); s.out = OutPort(8)
+    s.leaf = RLeaf(); s.leaf2 = RLeaf(2)
+    s.leaf.in_ //= s.in_; s.leaf2.in_ //= s.leaf.out; s.out //= s.leaf2.out
+class RTop(Component):
+  def construct(s):
+    s.in_ = InPort(8); s.out = OutPort(8)
+    s.mid = RMid()
+    s.mid.in_ //= s.in_; s.out //= s.mid.out
+"""
+
+
+def run_retranslate_probe(sh):
+  """the pass applied AGAIN to one elaborated design after a translation option was changed in between (a sub-component is given
+  an explicit module name; the name is changed; it is taken away again): each text is byte-identical to what a fresh design with
+  the same options gives in one go, defines every module it instantiates and defines no module twice"""
+  rng = sh.rng("retranslate")
+  mod = G.load_source(RETR_SRC, "c13retr")
+  try:
+    for be in ("sv", "ys"):
+      if be == "sv": from pymtl3.passes.backends.verilog import VerilogTranslationPass as P
+      else: from pymtl3.passes.backends.yosys import YosysTranslationPass as P
+      def text_of(top):
+        top.apply(P())
+        with open(top.get_metadata(P.translated_filename)) as f: return f.read()
+      def setopts(top, opts):
+        for path, name in opts.items():
+          o = top
+          for a in path.split("."): o = getattr(o, a)
+          o.set_metadata(P.explicit_module_name, name)
+      top = mod.RTop(); top.elaborate(); top.set_metadata(P.enable, True)
+      steps = [{}, {"mid.leaf": "IncrLeaf"}, {"mid.leaf": "IncrLeaf", "mid": "TheMid"}, {"mid.leaf": "OtherLeaf", "mid": "TheMid"}]
+      cur = {}
+      for opts in steps:
+        try:
+          setopts(top, {k: v for k, v in opts.items() if cur.get(k) != v}); cur = dict(opts)
+          again = text_of(top)
+          ref = mod.RTop(); ref.elaborate(); ref.set_metadata(P.enable, True); setopts(ref, opts)
+          fresh = text_of(ref)
+        except Exception as e:
+          sh.inconclusive("retranslate-probe-harness:" + type(e).__name__); break
+        sh.count("retranslations_compared")
+        defined = re.findall(r"^\s*module\s+(\w+)", again, re.M)
+        insts = [(m_, i_) for m_, i_ in re.findall(r"^\s*([A-Za-z_]\w*)\s+([A-Za-z_]\w*)\s*\n\s*\(", again, re.M) if m_ not in ("module", "begin", "end", "assign", "logic", "input", "output")]
+        undefined = [(m_, i_) for m_, i_ in insts if m_ not in defined]
+        if undefined or len(defined) != len(set(defined)):
+          sh.violation("instantiated-module-not-defined-or-module-defined-twice", {"backend": be, "options_now": opts, "history": "pass applied again after the options changed",
+                       "undefined_instances": undefined[:4], "defined": defined}, case=("retranslate", be, len(opts))); break
+        if again != fresh:
+          import difflib
+          sh.violation("text-after-re-applying-the-pass-differs-from-a-fresh-translation-with-the-same-options", {"backend": be, "options_now": opts,
+                       "diff": [l for l in difflib.unified_diff(fresh.splitlines(), again.splitlines(), lineterm="", n=0)][:10]}, case=("retranslate-text", be, len(opts))); break
+  finally:
+    G.unload(mod)
+
+
 def run_keyword_probe(sh):
   """identifiers are legal: a signal / block / loop variable named like a reserved word of IEEE 1800-2017 (list written down from
   Annex B in vlib/svkeywords.py, not taken from pymtl3's table) is either refused by the translator or renamed - it never reaches
@@ -602,6 +667,7 @@ def run_shard(sh):
   if sh.params["part"] == 0: run_subtree_probe(sh)
   if sh.params["part"] == 1: run_multiunit_probe(sh)
   if sh.params["part"] == 2: run_dupmodule_probes(sh)
+  if sh.params["part"] == 3: run_retranslate_probe(sh)
   run_keyword_probe(sh)
   rng = sh.rng("c13")
   items = []
